@@ -45,6 +45,9 @@
 (*     character); never judged, the document of the history stays what it *)
 (*     is and the specification keeps nothing of that input (KeptTail):    *)
 (*     every later Reparse / formatting shows what it would have shown;    *)
+(*     FmtFail = write_to_open_file(f) with a file object whose write()    *)
+(*     raises or accepts only a part: never judged, formatting reads the   *)
+(*     document, which stays what it is (as does the render layer);        *)
 (*     SetVersionWS = cl.version =                                         *)
 (*     valid version + white space (v = <<0>> rejected with ValueError,    *)
 (*     else the version shown afterwards) -- with interned arguments v,    *)
@@ -175,11 +178,11 @@ TEdit ==
           d2   == IF adds /\ hit # {} THEN CHOOSE c \in hit : TRUE
                   ELSE IF old THEN EditApply(D, e.op, e.v)
                   ELSE IF e.op = "BRest" THEN [D EXCEPT !.bl[e.i].h[5] = e.v[1]]      \* other_pairs after an in-place edit, as observed
-                  ELSE IF e.op \in {"Reparse", "FaultParse"} THEN D
+                  ELSE IF e.op \in {"Reparse", "FaultParse", "FmtFail"} THEN D
                   ELSE HApply(D, op3, e.v)
           en   == IF old THEN EditEnabled(D, e.op)
                   ELSE IF e.op = "BRest" THEN e.i \in 1..Len(D.bl)
-                  ELSE IF e.op = "Reparse" THEN TRUE
+                  ELSE IF e.op \in {"Reparse", "FmtFail"} THEN TRUE
                   ELSE IF e.op = "FaultParse" THEN e.x \in 1..Len(FaultKindSeq) ELSE HValid(D, op3)
           \* blocks whose own handed-out Version object was edited in place: their version is not judged
           mut2 == IF e.op = "MutVer" THEN rs.mut \cup {e.i}
